@@ -22,6 +22,14 @@ func init() {
 		Old:  "	if err != nil {\n		c.err = err\n		return err\n	}\n\n	if cfg != nil {\n		err = c.config.Merge(cfg, c.opts...)\n		if err != nil {\n			c.err = err\n		}\n	}\n	return err",
 		New:  "	if err == nil && cfg != nil {\n		err = c.config.Merge(cfg, c.opts...)\n	}\n	if err != nil {\n		c.err = err\n	}\n	return err"})
 
+	addControl(control{Prop: "C16", Name: "field-option-memoises-its-tree", Rule: "R16e", Kind: "mutant", Quick: true,
+		File: "opts.go", Old: "		return func(o *options) {\n			if o.fieldHandlingTree == nil {\n				o.fieldHandlingTree = newFieldHandlingTree()\n			}\n			o.fieldHandlingTree.merge(table, PathSep(o.pathSep))\n		}",
+		New: "		var rendered *fieldHandlingTree\n		return func(o *options) {\n			if rendered == nil {\n				rendered = newFieldHandlingTree()\n				rendered.merge(table, PathSep(o.pathSep))\n			}\n			if o.fieldHandlingTree == nil {\n				o.fieldHandlingTree = rendered\n				return\n			}\n			o.fieldHandlingTree.merge(rendered)\n		}",
+		Expect: "R16e/ucfg.makeFieldOptValueHandling"})
+	addControl(control{Prop: "C16", Name: "field-option-local-renamed", Rule: "R16e", Kind: "refactor",
+		File: "opts.go", Old: "		return func(o *options) {\n			if o.fieldHandlingTree == nil {\n				o.fieldHandlingTree = newFieldHandlingTree()\n			}\n			o.fieldHandlingTree.merge(table, PathSep(o.pathSep))\n		}",
+		New: "		return func(o *options) {\n			tree := o.fieldHandlingTree\n			if tree == nil {\n				tree = newFieldHandlingTree()\n				o.fieldHandlingTree = tree\n			}\n			tree.merge(table, PathSep(o.pathSep))\n		}"})
+
 	// ---------------- C18 ----------------
 	addControl(control{Prop: "C18", Name: "json-drops-opts", Rule: "R18f", Kind: "mutant", Quick: true,
 		File: "json/json.go", Old: "return ucfg.NewFrom(m, opts...)", New: "return ucfg.NewFrom(m)", Expect: "json.NewConfig"})
@@ -501,6 +509,18 @@ func init() {
 	addControl(control{Prop: "C07", Name: "string-converted-in-local", Rule: "R07h", Kind: "refactor",
 		File: "reify.go", Old: "		return reflect.ValueOf(s).Convert(baseType), nil", New: "		sv := reflect.ValueOf(s)\n		sv = sv.Convert(baseType)\n		return sv, nil"})
 	// ---------------- C05 ----------------
+	addControl(control{Prop: "C06", Name: "uint-accessor-rejects-maxint64", Rule: "R06h", Kind: "mutant", Quick: true,
+		File: "types.go", Old: "	if c.u > math.MaxInt64 {", New: "	if c.u >= math.MaxInt64 {", Expect: "R06h/(*ucfg.cfgUint).toInt"})
+	addControl(control{Prop: "C06", Name: "uint-accessor-guard-flipped", Rule: "R06h", Kind: "refactor",
+		File: "types.go", Old: "	if c.u > math.MaxInt64 {", New: "	if math.MaxInt64 < c.u {"})
+	addControl(control{Prop: "C10", Name: "cpy-parts-as-alternatives", Rule: "R10d", Kind: "mutant", Quick: true,
+		File: "types.go", Old: "	for name, f := range dict {\n		ctx := f.Context()\n		v := f.cpy(context{field: ctx.field, parent: newC})\n		fields.set(name, v)\n	}\n\n	if arr != nil {\n		fields.a = make([]value, len(arr))\n		for i, f := range arr {\n			ctx := f.Context()\n			v := f.cpy(context{field: ctx.field, parent: newC})\n			fields.setAt(i, newC, v)\n		}\n	}\n", New: "	switch {\n	case len(dict) > 0:\n		for name, f := range dict {\n			ctx := f.Context()\n			v := f.cpy(context{field: ctx.field, parent: newC})\n			fields.set(name, v)\n		}\n	case arr != nil:\n		fields.a = make([]value, len(arr))\n		for i, f := range arr {\n			ctx := f.Context()\n			v := f.cpy(context{field: ctx.field, parent: newC})\n			fields.setAt(i, newC, v)\n		}\n	}\n", Expect: "R10d/"})
+	addControl(control{Prop: "C01", Name: "cpy-parts-as-alternatives", Rule: "R01f", Kind: "mutant",
+		File: "types.go", Old: "	for name, f := range dict {\n		ctx := f.Context()\n		v := f.cpy(context{field: ctx.field, parent: newC})\n		fields.set(name, v)\n	}\n\n	if arr != nil {\n		fields.a = make([]value, len(arr))\n		for i, f := range arr {\n			ctx := f.Context()\n			v := f.cpy(context{field: ctx.field, parent: newC})\n			fields.setAt(i, newC, v)\n		}\n	}\n", New: "	switch {\n	case len(dict) > 0:\n		for name, f := range dict {\n			ctx := f.Context()\n			v := f.cpy(context{field: ctx.field, parent: newC})\n			fields.set(name, v)\n		}\n	case arr != nil:\n		fields.a = make([]value, len(arr))\n		for i, f := range arr {\n			ctx := f.Context()\n			v := f.cpy(context{field: ctx.field, parent: newC})\n			fields.setAt(i, newC, v)\n		}\n	}\n", Expect: "R01f/"})
+	addControl(control{Prop: "C05", Name: "tag-name-case-folded", Rule: "R05f", Kind: "mutant", Quick: true,
+		File: "util.go", Old: "	return s[0], opts\n}", New: "	return strings.ToLower(s[0]), opts\n}", Expect: "R05f/ucfg.parseTags"})
+	addControl(control{Prop: "C05", Name: "tag-name-in-local", Rule: "R05f", Kind: "refactor",
+		File: "util.go", Old: "	return s[0], opts\n}", New: "	name := s[0]\n	return name, opts\n}"})
 	addControl(control{Prop: "C05", Name: "generic-image-with-unreadable-type", Rule: "R05a", Kind: "mutant", Quick: true,
 		File: "types.go", Old: "func (c *cfgFloat) reify(*options) (interface{}, error)     { return c.f, nil }", New: "func (c *cfgFloat) reify(*options) (interface{}, error)     { return complex(c.f, 0), nil }", Expect: "R05a/(*ucfg.cfgFloat).reify"})
 	addControl(control{Prop: "C05", Name: "interface-keyed-maps-rejected", Rule: "R05b", Kind: "mutant", Quick: true,
